@@ -36,7 +36,7 @@ func runCLI(args ...string) (code int) {
 	return
 }
 
-var policyPwPool = []string{"a", "password", "qwerty123", "alice2020", "whawty", "Tr0ub4dor&3", "correct horse battery staple", "zQ9#vLp2!xTe", "aaaaaaaaaaaaaaaaaaaaaaaa", "iloveyou", "J8$kd0-2mQ", "summer2024!", "x"}
+var policyPwPool = []string{strings.Repeat("a", 80), strings.Repeat("password", 9), strings.Repeat("qwerty", 12) + "1", "a", "password", "qwerty123", "alice2020", "whawty", "Tr0ub4dor&3", "correct horse battery staple", "zQ9#vLp2!xTe", "aaaaaaaaaaaaaaaaaaaaaaaa", "iloveyou", "J8$kd0-2mQ", "summer2024!", "x"}
 
 func propC17(r *Run) {
 	inAgentBubble(r, func(w *AWorld) {
